@@ -385,6 +385,8 @@ def main():
     finally:
         restore()
         sh("./check build", cwd=VERIF)
+        # the evidence files were rewritten by runs against mutated trees: put the committed ones back
+        sh("git checkout -- evidence", cwd=VERIF)
     out = os.path.join(VERIF, "selftest", "mutants_result.json")
     if not only:
         with open(out, "w") as f:
